@@ -60,20 +60,60 @@ theorem mds_isUnderflow_tree (d : Nat) (t : MTree r d) (x : Option DX) (hs : (MT
       (MapMetaDataSlab_IsUnderflow (envD T eb rs) (md_meta t x)).2) = _
     rw [e]
 
+/-- the heap after a `Set` that restructures nowhere: the same identifiers, the new tree is held, everything else is
+    untouched -/
+structure mds_HeapRel (h h' : SlabID → Option (DSlab r)) (d : Nat) (t t' : MTree r d) (x : Option DX) : Prop where
+  ids : md_ids d t' = md_ids d t
+  holds : MHolds h' d t' x
+  frame : ∀ id, id ∉ md_ids d t → h' id = h id
+
+theorem mds_HeapRel.post {h h' : SlabID → Option (DSlab r)} {d : Nat} {t t' : MTree r d} {x : Option DX}
+    (hr : mds_HeapRel h h' d t t' x) : MHeapPost h h' t t' x where
+  holds := hr.holds
+  gone := fun id hin hnot => absurd (hr.ids ▸ hin) hnot
+  frame := fun id h1 _ => hr.frame id h1
+
+/-- `MHolds` only looks at the identifiers of the tree -/
+theorem mds_MHolds_congr : ∀ (d : Nat) (t : MTree r d) (x : Option DX) (h h' : SlabID → Option (DSlab r)),
+    (∀ id ∈ md_ids d t, h' id = h id) → MHolds h d t x → MHolds h' d t x
+  | 0, t, x, h, h', hyp, hh => by
+    have e : h' (MTree.hdr 0 t).id = h (MTree.hdr 0 t).id := hyp _ (List.mem_singleton.mpr rfl)
+    exact e.trans hh
+  | d + 1, t, x, h, h', hyp, hh => by
+    refine ⟨?_, fun c hc => ?_⟩
+    · have e : h' (MTree.hdr (d + 1) t).id = h (MTree.hdr (d + 1) t).id := hyp _ (List.mem_cons_self)
+      exact e.trans hh.1
+    · exact mds_MHolds_congr d c none h h'
+        (fun id hid => hyp id (List.mem_cons_of_mem _ (List.mem_flatMap.mpr ⟨c, hc, hid⟩))) (hh.2 c hc)
+
+theorem mds_split_at {α : Type} : ∀ (l : List α) (i : Nat) (a : α), l[i]? = some a →
+    ∃ A B, l = A ++ a :: B ∧ A.length = i
+  | [], i, a, h => by simp at h
+  | b :: l, 0, a, h => ⟨[], l, by simp at h; simp [h], rfl⟩
+  | b :: l, i + 1, a, h => by
+    obtain ⟨A, B, e, hl⟩ := mds_split_at l i a (by simpa using h)
+    exact ⟨b :: A, B, by simp [e], by simp [hl]⟩
+
+theorem mds_set_at {α : Type} (A B : List α) (a b : α) : (A ++ a :: B).set A.length b = A ++ b :: B := by
+  induction A with
+  | nil => rfl
+  | cons c A ih => simp [ih]
+
 /-- the result of the generated descent on a subtree against the model's -/
 def mds_setRel (cfg : MCfg) (k : MKey) (v : Elem) (depth d : Nat) (t : MTree r d) (x : Option DX) (s : MHSt r) : Prop :=
   match MTree.set cfg d t k v s.ctx with
   | .ok (ks, old, t', c') =>
     ∃ s', MapSlab_Set (envD cfg.T eb rs) (MapMetaDataSlab_Set (envD cfg.T eb rs) depth) (md_tree d t x) s () k (u64 0)
         (u64 (k.dig 0)) (.key k) (.val v) = some (some (.key ks), old.map .val, none, md_tree d t' x, s') ∧
-      s'.ctx = c' ∧ s'.popped = s.popped
+      s'.ctx = c' ∧ s'.popped = s.popped ∧ mds_HeapRel s.heap s'.heap d t t' x
   | .error e =>
     MapSlab_Set (envD cfg.T eb rs) (MapMetaDataSlab_Set (envD cfg.T eb rs) depth) (md_tree d t x) s () k (u64 0)
         (u64 (k.dig 0)) (.key k) (.val v) = some (none, none, some e, md_tree d t x, s)
 
 theorem mds_set_data (cfg : MCfg) (k : MKey) (v : Elem) (P : DG r → Prop) (hE : ElemsSpec cfg k v P eb)
     (sl : MDataSlab r) (x : Option DX) (hx : x.isSome = sl.root) (hP : P sl.elems) (s : MHSt r)
-    (ha : sl.hdr.id.addr = cfg.addr) (depth : Nat) : mds_setRel eb rs cfg k v depth 0 sl x s := by
+    (ha : sl.hdr.id.addr = cfg.addr) (hinl : sl.inlined = false) (depth : Nat) :
+    mds_setRel eb rs cfg k v depth 0 sl x s := by
   have h := Ob_MapDataSlab_Set_heap cfg.T eb rs cfg k v P hE sl x hx hP s ha
   unfold mds_setRel
   rcases hq : HkeyElems.set (MElems.ops r) cfg sl.elems 0 k v s.ctx with err | ⟨ks, old, g', c0⟩
@@ -90,12 +130,21 @@ theorem mds_set_data (cfg : MCfg) (k : MKey) (v : Elem) (P : DG r → Prop) (hE 
       .ok (ks, old, mds_dataAfter sl g', (mds_dataAfter sl g').storeIfNotInlined c0) := h1
     rw [h1']
     refine ⟨if sl.inlined = true then s.withCtx c0
-        else (s.withCtx c0).store sl.hdr.id (MapSlab.dataSlab (md_data (mds_dataAfter sl g') x)), ?_, ?_, ?_⟩
+        else (s.withCtx c0).store sl.hdr.id (MapSlab.dataSlab (md_data (mds_dataAfter sl g') x)), ?_, ?_, ?_, ?_⟩
     · show MapSlab_Set _ _ (.dataSlab (md_data sl x)) _ _ _ _ _ _ _ = _
       simp only [MapSlab_Set, h2]
       rfl
     · cases hi : sl.inlined <;> simp [MDataSlab.storeIfNotInlined, mds_dataAfter, hi]
     · cases hi : sl.inlined <;> simp
+    · simp only [hinl, Bool.false_eq_true, if_false]
+      refine ⟨rfl, ?_, ?_⟩
+      · show (if sl.hdr.id = sl.hdr.id then _ else _) = _
+        rw [if_pos rfl]
+      · intro id hid
+        have hne : id ≠ sl.hdr.id := fun e => hid (e ▸ List.mem_singleton.mpr rfl)
+        show (if id = sl.hdr.id then _ else _) = _
+        rw [if_neg hne]
+        rfl
 
 /-- the root flag of a subtree -/
 def mds_rootFlag : (d : Nat) → MTree r d → Bool
@@ -106,7 +155,7 @@ def mds_rootFlag : (d : Nat) → MTree r d → Bool
     agrees with the embedded child, the data slab's elements satisfy `P` and belong to the owner address, and the
     model restructures nowhere (the new child is neither full nor underflowing, its size fits `uint32`) -/
 def mds_Path (cfg : MCfg) (k : MKey) (v : Elem) (P : DG r → Prop) : (d : Nat) → MTree r d → Ctx → Prop
-  | 0, (sl : MDataSlab r), _ => P sl.elems ∧ sl.hdr.id.addr = cfg.addr
+  | 0, (sl : MDataSlab r), _ => P sl.elems ∧ sl.hdr.id.addr = cfg.addr ∧ sl.inlined = false
   | d + 1, (m : MMetaSlab (MTree r d)), c =>
     (∀ h ∈ m.childHdrs, h.firstKey < 2^64) ∧ m.childHdrs.length < 2^62 ∧
     ∃ child : MTree r d, m.children[mds_idx m.childHdrs (k.dig 0)]? = some child ∧
@@ -151,12 +200,14 @@ theorem mds_set_meta (cfg : MCfg) (k : MKey) (v : Elem) (hT1 : maxThr cfg.T < 2^
     (hfk : ∀ h ∈ m.childHdrs, h.firstKey < 2^64) (hlen : m.childHdrs.length < 2^62)
     (child : MTree r d) (hci : m.children[mds_idx m.childHdrs (k.dig 0)]? = some child)
     (hhi : m.childHdrs[mds_idx m.childHdrs (k.dig 0)]? = some (MTree.hdr d child))
-    (hheap : s.heap (MTree.hdr d child).id = some (md_tree d child none))
+    (hh : MHolds s.heap (d + 1) m x) (hnd : (md_ids (d + 1) m).Nodup)
     (hres : ∀ ks old child' c1, MTree.set cfg d child k v s.ctx = .ok (ks, old, child', c1) →
         (MTree.hdr d child').size < 2^32 ∧ MTree.isFull cfg.T d child' = false ∧
           MTree.isUnderflow cfg.T d child' = none)
     (ihc : mds_setRel eb rs cfg k v depth d child none s) :
     mds_setRel eb rs cfg k v (depth + 1) (d + 1) m x s := by
+  have hheap : s.heap (MTree.hdr d child).id = some (md_tree d child none) :=
+    (hh.2 child (List.mem_of_getElem? hci)).root
   unfold mds_setRel at ihc ⊢
   rw [mds_model_set_succ cfg d m k v s.ctx child hci]
   have hil : mds_idx m.childHdrs (k.dig 0) < m.childHdrs.length := (List.getElem?_eq_some_iff.mp hhi).1
@@ -172,10 +223,11 @@ theorem mds_set_meta (cfg : MCfg) (k : MKey) (v : Elem) (hT1 : maxThr cfg.T < 2^
       (md_tree d child none) none none e hheap' ihc]
     rfl
   · rw [hq] at ihc
-    obtain ⟨s1, h1, h2, h3⟩ := ihc
+    obtain ⟨s1, h1, h2, h3, hrel⟩ := ihc
     obtain ⟨hsz, hfull, hund⟩ := hres ks old child' c1 hq
     simp only [mds_afterChild_plain cfg.T m child' _ c1 hfull hund]
-    refine ⟨s1.store m.hdr.id (.metaSlab (md_meta (mds_metaAfter m child' (mds_idx m.childHdrs (k.dig 0))) x)), ?_, ?_, ?_⟩
+    refine ⟨s1.store m.hdr.id (.metaSlab (md_meta (mds_metaAfter m child' (mds_idx m.childHdrs (k.dig 0))) x)), ?_, ?_, ?_,
+      ?_⟩
     · show MapSlab_Set _ _ (.metaSlab (md_meta m x)) _ _ _ _ _ _ _ = _
       simp only [MapSlab_Set]
       rw [Ob_MapMetaDataSlab_Set_step cfg.T eb rs m x s s1 k v depth hhk hfk hlen hil (md_tree d child none)
@@ -186,6 +238,56 @@ theorem mds_set_meta (cfg : MCfg) (k : MKey) (v : Elem) (hT1 : maxThr cfg.T < 2^
       rfl
     · simp [h2]
     · simp [h3]
+    · -- the heap
+      obtain ⟨A, B, hAB, hAl⟩ := mds_split_at m.children _ child hci
+      have hids : md_ids (d + 1) m = m.hdr.id :: (A.flatMap (md_ids d) ++ (md_ids d child ++ B.flatMap (md_ids d))) := by
+        show m.hdr.id :: m.children.flatMap (md_ids d) = _
+        rw [hAB]; simp
+      have hch1 : (mds_metaAfter m child' (mds_idx m.childHdrs (k.dig 0))).children = A ++ child' :: B := by
+        show m.children.set _ child' = _
+        rw [hAB, ← hAl, mds_set_at]
+      rw [hids] at hnd
+      obtain ⟨hhead, htail⟩ := List.nodup_cons.mp hnd
+      obtain ⟨_, hcB, hdisjA⟩ := List.nodup_append.mp htail
+      obtain ⟨_, _, hdisjB⟩ := List.nodup_append.mp hcB
+      have hidc : m.hdr.id ∉ md_ids d child := fun hc =>
+        hhead (List.mem_append_right _ (List.mem_append_left _ hc))
+      refine ⟨?_, ⟨?_, ?_⟩, ?_⟩
+      · show m.hdr.id :: (mds_metaAfter m child' (mds_idx m.childHdrs (k.dig 0))).children.flatMap (md_ids d) = _
+        rw [hids, hch1]; simp [hrel.ids]
+      · show (if m.hdr.id = m.hdr.id then _ else _) = _
+        rw [if_pos rfl]
+      · intro c hc
+        rw [hch1] at hc
+        have hstore : ∀ id, id ≠ m.hdr.id → (s1.store m.hdr.id
+            (.metaSlab (md_meta (mds_metaAfter m child' (mds_idx m.childHdrs (k.dig 0))) x))).heap id = s1.heap id :=
+          fun id hne => by show (if id = m.hdr.id then _ else _) = _; rw [if_neg hne]
+        rcases List.mem_append.mp hc with hcA | hcB'
+        · refine mds_MHolds_congr d c none s.heap _ (fun id hid => ?_)
+            (hh.2 c (by rw [hAB]; exact List.mem_append_left _ hcA))
+          have hidA : id ∈ A.flatMap (md_ids d) := List.mem_flatMap.mpr ⟨c, hcA, hid⟩
+          have hne : id ≠ m.hdr.id := fun e => hhead (e ▸ List.mem_append_left _ hidA)
+          have hnc : id ∉ md_ids d child := fun hc' => hdisjA id hidA id (List.mem_append_left _ hc') rfl
+          rw [hstore id hne, hrel.frame id hnc]
+        · rcases List.mem_cons.mp hcB' with rfl | hcB''
+          · refine mds_MHolds_congr d c none s1.heap _ (fun id hid => ?_) hrel.holds
+            have hne : id ≠ m.hdr.id := fun e => hidc (hrel.ids ▸ (e ▸ hid))
+            exact hstore id hne
+          · refine mds_MHolds_congr d c none s.heap _ (fun id hid => ?_)
+              (hh.2 c (by rw [hAB]; exact List.mem_append_right _ (List.mem_cons_of_mem _ hcB'')))
+            have hidB : id ∈ B.flatMap (md_ids d) := List.mem_flatMap.mpr ⟨c, hcB'', hid⟩
+            have hne : id ≠ m.hdr.id :=
+              fun e => hhead (e ▸ List.mem_append_right _ (List.mem_append_right _ hidB))
+            have hnc : id ∉ md_ids d child := fun hc' => hdisjB id hc' id hidB rfl
+            rw [hstore id hne, hrel.frame id hnc]
+      · intro id hid
+        rw [hids] at hid
+        have hne : id ≠ m.hdr.id := fun e => hid (e ▸ List.mem_cons_self)
+        have hnc : id ∉ md_ids d child := fun hc' =>
+          hid (List.mem_cons_of_mem _ (List.mem_append_right _ (List.mem_append_left _ hc')))
+        show (if id = m.hdr.id then _ else _) = _
+        rw [if_neg hne]
+        exact hrel.frame id hnc
 
 /-- MODEL FORM of the descent: for a tree `t` held by the heap, when the model's `MTree.set` restructures nowhere on
     the path of the key (`mds_Path`), the generated `MapSlab.Set` dispatch over the heap returns the translation of the
@@ -194,30 +296,38 @@ theorem mds_set_meta (cfg : MCfg) (k : MKey) (v : Elem) (hT1 : maxThr cfg.T < 2^
 theorem Ob_MapSlab_Set_heap_noRestructure (cfg : MCfg) (k : MKey) (v : Elem) (P : DG r → Prop)
     (hE : ElemsSpec cfg k v P eb) (hT1 : maxThr cfg.T < 2^32) (hT2 : minThr cfg.T < 2^32) (hhk : k.dig 0 < 2^64) :
     ∀ (d depth : Nat) (t : MTree r d) (x : Option DX) (s : MHSt r), d ≤ depth → MHolds s.heap d t x →
-      x.isSome = mds_rootFlag d t → mds_Path cfg k v P d t s.ctx →
+      x.isSome = mds_rootFlag d t → (md_ids d t).Nodup → mds_Path cfg k v P d t s.ctx →
       match MTree.set cfg d t k v s.ctx with
       | .ok (ks, old, t', c') =>
         ∃ s', MapSlab_Set (envD cfg.T eb rs) (MapMetaDataSlab_Set (envD cfg.T eb rs) depth) (md_tree d t x) s () k
             (u64 0) (u64 (k.dig 0)) (.key k) (.val v) =
               some (some (.key ks), old.map .val, none, md_tree d t' x, s') ∧
-          s'.ctx = c' ∧ s'.popped = s.popped
+          s'.ctx = c' ∧ s'.popped = s.popped ∧ mds_HeapRel s.heap s'.heap d t t' x
       | .error e =>
         MapSlab_Set (envD cfg.T eb rs) (MapMetaDataSlab_Set (envD cfg.T eb rs) depth) (md_tree d t x) s () k (u64 0)
           (u64 (k.dig 0)) (.key k) (.val v) = some (none, none, some e, md_tree d t x, s) := by
   intro d
   induction d with
   | zero =>
-    intro depth t x s _ _ hx hp
-    exact mds_set_data eb rs cfg k v P hE t x hx hp.1 s hp.2 depth
+    intro depth t x s _ _ hx _ hp
+    exact mds_set_data eb rs cfg k v P hE t x hx hp.1 s hp.2.1 hp.2.2 depth
   | succ d ih =>
-    intro depth t x s hd hh _ hp
+    intro depth t x s hd hh _ hnd hp
     obtain ⟨hfk, hlen, child, hci, hhi, hroot, hpc, hres⟩ := hp
     cases depth with
     | zero => omega
     | succ depth' =>
       have hhc : MHolds s.heap d child none := hh.2 child (List.mem_of_getElem? hci)
-      exact mds_set_meta eb rs cfg k v hT1 hT2 hhk d depth' t x s hfk hlen child hci hhi hhc.root hres
-        (ih depth' child none s (by omega) hhc (by rw [hroot]; rfl) hpc)
+      have hndc : (md_ids d child).Nodup := by
+        obtain ⟨A, B, hAB, _⟩ := mds_split_at (MMetaSlab.children t) _ child hci
+        have hids : md_ids (d + 1) t =
+            (MMetaSlab.hdr t).id :: (A.flatMap (md_ids d) ++ (md_ids d child ++ B.flatMap (md_ids d))) := by
+          show (MMetaSlab.hdr t).id :: (MMetaSlab.children t).flatMap (md_ids d) = _
+          rw [hAB]; simp
+        rw [hids] at hnd
+        exact (List.nodup_append.mp (List.nodup_append.mp (List.nodup_cons.mp hnd).2).2.1).1
+      exact mds_set_meta eb rs cfg k v hT1 hT2 hhk d depth' t x s hfk hlen child hci hhi hh hnd hres
+        (ih depth' child none s (by omega) hhc (by rw [hroot]; rfl) hndc hpc)
 
 end
 
